@@ -385,3 +385,90 @@ def replay(target, inputs, ghost=None):
     out["violations"] = viol
     out["violates_contract"] = bool(viol)
     return out
+
+
+@custom("cooler.fileops:_copy")
+def _replay_copy(inputs, ghost=None):
+    """real files for a counter-model of the _copy contract: a small cooler at the source group, an unrelated
+    group next to it, and (when the model says the destination file exists) a destination file holding an
+    unrelated group.  Checks the property itself on the files afterwards.  The model's flags, same/different
+    file and destination-exists bits are kept; its group paths (abstract strings) are tried first and then
+    re-chosen among a few concrete layouts, since solvers return the degenerate src_group == dst_group == "/"."""
+    g = {k: conv(v) for k, v in (ghost or {}).items()}
+    a = {k: conv(v) for k, v in inputs.items()}
+    same = g.get("sp") == g.get("dp")
+    sg0 = "/" if g.get("sg") == "/" else "/grp_s"
+    dg0 = "/" if g.get("dg") == "/" else (sg0 if g.get("dg") == g.get("sg") else "/grp_d/nested")
+    layouts = [(sg0, dg0)] + [x for x in [("/grp_s", "/grp_d/nested"), ("/", "/grp_d"), ("/grp_s", "/")] if x != (sg0, dg0)]
+    first = None
+    for n, (sg, dg) in enumerate(layouts):
+        if same and dg == "/" and n > 0:
+            continue
+        out = _copy_once(a, g, same, sg, dg)
+        out["layout"] = "group paths of the counter-model" if n == 0 else "group paths re-chosen (same flags, same/different file, destination-exists as in the counter-model)"
+        if first is None:
+            first = out
+        if out["violates_contract"]:
+            return out
+    return first
+
+
+def _copy_once(a, g, same, sg, dg):
+    import os
+    import tempfile
+    import h5py
+    import pandas as pd
+    import cooler
+    from cooler.fileops import _copy
+    exists = bool(g.get("exists", False)) or same
+    flags = {k: bool(a.get(k, False)) for k in ("overwrite", "link", "rename", "soft_link")}
+    out = {"inputs_used": dict(flags, same_file=same, src_group=sg, dst_group=dg, dst_file_exists=exists)}
+    d = tempfile.mkdtemp(prefix="pyvc_copy_")
+    sp = os.path.join(d, "s.cool")
+    dp = sp if same else os.path.join(d, "d.cool")
+    bins = pd.DataFrame({"chrom": ["a", "a", "b"], "start": [0, 5, 0], "end": [5, 9, 4]})
+    pix = pd.DataFrame({"bin1_id": [0, 0, 1], "bin2_id": [0, 2, 2], "count": [1, 2, 3]})
+    cooler.create_cooler(sp + "::" + sg, bins, pix)
+    with h5py.File(sp, "r+") as f:
+        f.create_group("unrelated_src").attrs["tag"] = 1
+    if exists and not same:
+        with h5py.File(dp, "w") as f:
+            f.create_group("unrelated_dst").attrs["tag"] = 2
+    before = cooler.Cooler(sp + "::" + sg).pixels()[:]
+    raised = None
+    try:
+        _copy(sp + "::" + sg, dp + "::" + dg, **flags)
+    except Exception as e:
+        raised = e
+    out["raised"] = None if raised is None else f"{type(raised).__name__}: {raised}"
+    viol = []
+    many = sum([flags["link"], flags["rename"], flags["soft_link"]]) > 1
+    if many or (flags["link"] and not same):
+        want = ValueError if many else OSError
+        if not isinstance(raised, want):
+            viol.append(f"expected {want.__name__}, got {out['raised']}")
+    elif raised is not None:
+        out["note"] = "the real h5py refused this combination; not judged"
+    elif not (same and sg == dg):
+        try:
+            after = cooler.Cooler(dp + "::" + dg).pixels()[:]
+            if not after.equals(before):
+                viol.append("destination does not read identically to the source")
+        except Exception as e:
+            viol.append(f"destination is not readable as a collection: {type(e).__name__}: {e}")
+        src_there = cooler.fileops.is_cooler(sp + "::" + sg)
+        if flags["rename"] and src_there:
+            viol.append("source still present after a move")
+        if not flags["rename"] and not src_there:
+            viol.append("source gone although the operation is not a move")
+        with h5py.File(sp, "r") as f:
+            if "unrelated_src" not in f:
+                viol.append("an unrelated group of the source file is gone")
+        if exists and not same and not flags["overwrite"]:
+            with h5py.File(dp, "r") as f:
+                if "unrelated_dst" not in f:
+                    viol.append("the existing destination file was truncated without overwrite")
+    import shutil
+    shutil.rmtree(d, ignore_errors=True)
+    out.update(returned=None, violations=viol, violates_contract=bool(viol))
+    return out
